@@ -51,8 +51,8 @@ ASSUMPTIONS = ['sector/arc bounding boxes within +-2^29 (rect_ok), where the unb
                '`length_squared` of the code wraps beyond (release: Sector (0,0) d=11 sweep 360 .contains((32773,5)) = true; with '
                'overflow checks: panic) - C05_sector_far_probe_wraps is the machine-checked witness; diameters < 2^15']
 
-EPS_MILLI = 3000        # f32 / micromath build: measured 2.12
-EPS_MILLI_FP = 10000    # fixed_point build: whole-degree table lookup, 1024*sin(0.5 deg) = 8.94 + truncation; measured 9.85.
+EPS_MILLI = 3000        # f32 / micromath build: measured 2.118 over every f32 angle in +-1440 deg
+EPS_MILLI_FP = 10000    # fixed_point build: whole-degree table lookup, 1024*sin(0.5 deg) = 8.94 + truncation; measured 9.858 over every f32 angle in +-1440 deg.
                         # 10 is the eps at which C18_sector_near_cone_fixed_point / covers_cone_fixed_point are instantiated
                         # (their proof needs eps <= 10; the line-distance theorems allow 16): the test is exactly the theorem's hypothesis
 
